@@ -247,7 +247,8 @@ def _mutated_after(fn, resize, call, X, valid_ids):
     for n in fn.all_nodes():
         if n.get('k') == 'call' and n['id'] not in valid_ids and n.get('q', '').startswith('std::basic_string::') \
                 and call_name(n) in STRING_MUTATORS and string_call_on(fn, n, X, STRING_MUTATORS):
-            bar = lambda e: e == call['id'] or e in valid_ids
+            dead = {x['id'] for x in fn.all_nodes() if x.get('k') == 'throw' or (x.get('k') in ('call', 'construct') and x.get('noret'))}
+            bar = lambda e: e == call['id'] or e in valid_ids or e in dead     # (assert failure / throw is not a return)
             if reaches(fn, resize['id'], n['id'], barrier=bar) and path_search(fn, n['id'], is_exit, bar) is not None:
                 return n
     return None
